@@ -262,6 +262,8 @@ impl MemoryBudget {
 
         loop {
             let current_pool_used = pool_counter.load(Ordering::Acquire);
+            #[cfg(kahflane_turdb_verif)]
+            crate::verif_hooks::sched_point(100);
             let current_total_used = self.total_used();
             let total_limit = self.total_limit();
             #[cfg(kahflane_turdb_verif)]
